@@ -3,8 +3,9 @@
 
    Objects.  Model = AvlModel (tree with STORED heights, rebal/shiftl/shiftr/rotl/rotr, descending
    insert, hinted insert with the code's four neighbour tests, removal with the code's
-   successor/predecessor choice, find/count, copy = sequential inserts, insert(other) = plain +
-   hinted inserts; two containers `a`/`b`, `OSel` selects).  Reference = AvlSpec (sorted list of
+   successor/predecessor choice, find/count, copy construction / operator= of Map AND MultiMap =
+   sequential plain inserts of the source's entries in iteration order, self-assignment = nothing,
+   Map::insert(other) = plain + hinted inserts; two containers `a`/`b`, `OSel` selects).  Reference = AvlSpec (sorted list of
    (key, value, slot); slot = identity of the Item).  abs = in-order sequences of the two trees.
    Inv f st  =  for both containers:  bal (stored height = 1 + max of the children's stored heights,
    hence = real height [reachable_balanced]; heights of the two children differ by at most 1, at every
@@ -23,14 +24,25 @@
    are balanced and differ by <= 2 restores balance               -> rebal_keeps_order, rebal_restores_balance
    "iterate their entries in ascending key order", size            -> reachable_sorted_and_counted
    "MultiMap keeps plainly inserted equal keys in insertion order" -> multimap_plain_insert_after_equal_keys
+   "copy" (Map and MultiMap): the copy has the source's keys and
+   values in the source's order (runs of equal keys included), new
+   entries, same size; the source is untouched                      -> copy_keeps_sequence (and OCopy/OSelf are
+                                                                      cases of the invariant and refinement theorems,
+                                                                      for both flavours)
    "agree with a reference sorted (multi)map on size, contents,
     find/contains, count, front/back and the iterator each
     operation returns"                                             -> step_refines_reference (one op),
                                                                       history_refines_reference (all ops,
                                                                       results and final contents),
-                                                                      reference_never_rejects (the position a
-                                                                      hinted MultiMap insert chose is always one
-                                                                      that keeps the sequence sorted)
+                                                                      reference_never_rejects (the REFERENCE, run
+                                                                      with the model's choices, never answers RBad),
+                                                                      hinted_multimap_choice_valid (the position a
+                                                                      hinted MultiMap insert chose passes the
+                                                                      reference's valid_pos test in every reachable
+                                                                      state)
+   remove(key) (text silent on how many of a run of equal keys):
+   exactly one entry, the first of the run, goes; count(key) drops
+   by one, every other count is unchanged                          -> remove_key_removes_first_of_run
    "finding any key among n entries needs at most
     2*floor(1.4405*log2(n+2)) key comparisons"                     -> find_cost_logarithmic (integer form, no
                                                                       axioms: floor(1.4405*log2 m) =
@@ -104,9 +116,36 @@ Theorem history_refines_reference : forall f ops,
 Proof. exact trace_refines. Qed.
 Print Assumptions history_refines_reference.
 
-Theorem reference_never_rejects : forall f ops, ~ In RBad (m_trace f m_init ops).
-Proof. exact trace_not_bad_init. Qed.
+(* restated after the audit: about the results of the REFERENCE (spec_step can answer RBad, see
+   ex_reference_rejects), not about the model's own result list *)
+Theorem reference_never_rejects : forall f ops, ~ In RBad (fst (s_trace f s_init ops (m_choices f m_init ops))).
+Proof. exact spec_trace_not_bad. Qed.
 Print Assumptions reference_never_rejects.
+
+Theorem hinted_multimap_choice_valid : forall ops pos k v,
+  let st := run FMulti m_init ops in
+  valid_pos k (choice_of FMulti st (OHint pos k v)) (inorder (tr (m_sel st))) = true.
+Proof. exact hint_choice_valid. Qed.
+Print Assumptions hinted_multimap_choice_valid.
+
+Theorem copy_keeps_sequence : forall f ops,
+  let st := run f m_init ops in
+  let st' := fst (step f st OCopy) in
+  map kv (inorder (tr (m_sel st'))) = map kv (inorder (tr (m_other st))) /\
+  map eslot (inorder (tr (m_sel st'))) = seq (m_next st) (length (inorder (tr (m_other st)))) /\
+  inorder (tr (m_other st')) = inorder (tr (m_other st)) /\
+  sz (m_sel st') = sz (m_other st).
+Proof. exact copy_sequence. Qed.
+Print Assumptions copy_keeps_sequence.
+
+Theorem remove_key_removes_first_of_run : forall f ops k,
+  let st := run f m_init ops in
+  let l := inorder (tr (m_sel st)) in
+  let l' := inorder (tr (m_sel (fst (step f st (ORemKey k))))) in
+  match find_list k l with Some i => l' = remove_nth i l | None => l' = l end /\
+  forall k', count_list k' l' = if k' =? k then pred (count_list k' l) else count_list k' l.
+Proof. exact remove_key_one. Qed.
+Print Assumptions remove_key_removes_first_of_run.
 
 (* ---- (3) cost ------------------------------------------------------------------------------------------- *)
 Theorem fibonacci_size_bound : forall t, bal t -> (fib (ht t + 2) <= size t + 1)%nat.
@@ -145,6 +184,32 @@ Example ex_reachable_multi :
   inorder (tr (m_sel (run FMulti m_init ex_ops_multi))) =
     [(3, 3, 2%nat); (3, 6, 5%nat); (5, 2, 1%nat); (5, 4, 3%nat); (5, 5, 4%nat); (7, 7, 6%nat)].
 Proof. vm_compute. reflexivity. Qed.
+
+(* MultiMap copy construction / assignment in both directions: the runs 3,3 and 5,5,5,5 keep their order
+   (values 3,6 and 2,4,5,10), the entries are new (slots 16..22), self-assignment changed nothing *)
+Example ex_reachable_multi_copy :
+  let st := run FMulti m_init ex_ops_multi_copy in
+  inorder (tr (m_a st)) =
+    [(3, 3, 16%nat); (3, 6, 17%nat); (5, 2, 18%nat); (5, 4, 19%nat); (5, 5, 20%nat); (5, 10, 21%nat); (7, 7, 22%nat)] /\
+  inorder (tr (m_b st)) =
+    [(3, 3, 9%nat); (3, 6, 10%nat); (5, 2, 11%nat); (5, 4, 12%nat); (5, 5, 13%nat); (5, 10, 15%nat); (7, 7, 14%nat)].
+Proof. vm_compute. split; reflexivity. Qed.
+
+(* a hinted insert of key 5 at the Item of rank 2 (first of the run of 5s) chooses position 5 (end of the run) *)
+Example ex_choice_valid :
+  let st := run FMulti m_init ex_ops_multi in
+  choice_of FMulti st (OHint 2 5 0) = 5%nat /\ valid_pos 5 5 (inorder (tr (m_sel st))) = true /\
+  valid_pos 5 1 (inorder (tr (m_sel st))) = false.
+Proof. vm_compute. split; [reflexivity|split; reflexivity]. Qed.
+
+(* remove(5) on [3 3 5 5 5 7] takes the entry of rank 2 (value 2, the oldest 5): count 3 -> 2 *)
+Example ex_remove_key_one :
+  let st := run FMulti m_init ex_ops_multi in
+  let st' := fst (step FMulti st (ORemKey 5)) in
+  find_list 5 (inorder (tr (m_sel st))) = Some 2%nat /\
+  count_list 5 (inorder (tr (m_sel st))) = 3%nat /\
+  inorder (tr (m_sel st')) = [(3, 3, 2%nat); (3, 6, 5%nat); (5, 4, 3%nat); (5, 5, 4%nat); (7, 7, 6%nat)].
+Proof. vm_compute. split; [reflexivity|split; reflexivity]. Qed.
 
 (* the reference, run on the same history with the model's choices, produces these results *)
 Example ex_trace_multi :
